@@ -1,12 +1,21 @@
 package common
 
 import (
+	"context"
 	"fmt"
 	"time"
+
+	"github.com/tikv/client-go/v2/tikv"
 
 	"github.com/tikv/client-go/v2/tikvrpc"
 	"github.com/tikv/client-go/v2/verifrt/sched"
 	"github.com/tikv/client-go/v2/verifrt/txnh"
+)
+
+// GCDone / GCErr: outcome of the GC actor of the current execution (ExploredRecoveryWith "gc").
+var (
+	GCDone bool
+	GCErr  error
 )
 
 // ExploredRecoveryScenario: a 3-key victim crashes at an enumerated seam event; then its locks expire
@@ -20,6 +29,12 @@ type ExploredRecoveryScenario struct {
 
 // ExploredRecovery builds the scenario table (backends x optimistic commit modes x {3 regions, 1 region}).
 func ExploredRecovery(thorough bool, keys []string) []ExploredRecoveryScenario {
+	return ExploredRecoveryWith(thorough, keys, "reader")
+}
+
+// ExploredRecoveryWith: the recovering actor is a batch-get reader ("reader") or GC's lock resolution
+// over the whole key space at a fresh safe point ("gc"; its outcome is left in GCErr / GCDone).
+func ExploredRecoveryWith(thorough bool, keys []string, actor string) []ExploredRecoveryScenario {
 	var out []ExploredRecoveryScenario
 	for _, bk := range BackendsTier(thorough) {
 		for _, m := range bk.Modes {
@@ -29,7 +44,7 @@ func ExploredRecovery(thorough bool, keys []string) []ExploredRecoveryScenario {
 			for _, lo := range []Layout{{Name: "split@b,c", Splits: []string{"b", "c"}}, {Name: "1region"}} {
 				bk, m, lo := bk, m, lo
 				ops := []txnh.Op{{Kind: "set", Key: "a"}, {Kind: "set", Key: "b"}, {Kind: "set", Key: "c"}, {Kind: "commit"}}
-				name := fmt.Sprintf("%s/%s/%s/set(a);set(b);set(c)/recovery=explored-reader", bk.Name, lo.Name, m)
+				name := fmt.Sprintf("%s/%s/%s/set(a);set(b);set(c)/recovery=explored-%s", bk.Name, lo.Name, m, actor)
 				mk := func() *txnh.TxnScenario {
 					started := false
 					sc := &txnh.TxnScenario{ID: name, NewBackend: func() txnh.Backend { return bk.New(lo.Splits) }, Keys: keys,
@@ -64,6 +79,22 @@ func ExploredRecovery(thorough bool, keys []string) []ExploredRecoveryScenario {
 					sc.ExtraFn = func(s *txnh.TxnScenario) []sched.Choice {
 						if started || !s.W.Crashed(0) {
 							return nil
+						}
+						if actor == "gc" {
+							return []sched.Choice{{Key: "expire+gc", Fn: func() {
+								started = true
+								sched.Advance(time.Hour)
+								var c *txnh.Client
+								sched.Sync(func() { c = s.W.AddClient() })
+								GCDone, GCErr = false, nil
+								sched.Go("gc", func() {
+									sp, err := c.Store.CurrentTimestamp("global")
+									if err == nil {
+										_, err = tikv.ResolveLocksForRange(context.Background(), tikv.NewRegionLockResolver("verif-gc", c.Store), sp, nil, nil, tikv.NewGcResolveLockMaxBackoffer, 16)
+									}
+									GCErr, GCDone = err, true
+								})
+							}}}
 						}
 						return []sched.Choice{{Key: "expire+reader", Fn: func() {
 							started = true
